@@ -1,9 +1,9 @@
 ------------------------------- MODULE MC_mon -------------------------------
 EXTENDS REMon
-XD == {"det", "det2", "pdet", "motor", "motor2", "mon1"}
+XD == {"det", "det2", "pdet", "motor", "motor2", "mon1", "amotor", "apdet"}
 ReadValDef == [d \in XD |-> CASE d = "motor" -> "dict:motor,motor_setpoint" [] d = "motor2" -> "dict:motor2,motor2_setpoint"
-                                   [] d = "det" -> "dict:det" [] d = "det2" -> "dict:det2" [] d = "pdet" -> "dict:pdet" [] OTHER -> "dict:mon1"]
+                                   [] d = "amotor" -> "dict:amotor,amotor_setpoint" [] d = "apdet" -> "dict:apdet" [] d = "det" -> "dict:det" [] d = "det2" -> "dict:det2" [] d = "pdet" -> "dict:pdet" [] OTHER -> "dict:mon1"]
 DataKeysDef == [d \in XD |-> {d}]
 StreamOrderDef == <<"baseline", "interruptions", "mon1", "primary">>
-DevOrderDef == <<"det", "det2", "mon1", "motor", "motor2", "pdet">>
+DevOrderDef == <<"det", "det2", "mon1", "motor", "motor2", "pdet", "amotor", "apdet">>
 =============================================================================
